@@ -11,6 +11,8 @@
    (spec <line>): the same judgement by a direct list computation that does not use Cancel.next. *)
 From Coq Require Import List NArith Arith Bool String.
 From Verif Require Import common.Sexp c07.Cancel.
+From Verif Require c01vm.Run c01vm.VM c07.VMLink.
+From Verif Require Import c01vm.Syntax c01vm.Code c01vm.Compile c01vm.Natives.
 Import ListNotations.
 
 Inductive ores := OV (l : list N) | OE (l : list N) | OCtx | ODone | OPanic.
@@ -144,8 +146,83 @@ Definition run_sexp (spec : bool) (e : sexp) : sexp :=
   | _ => A "undecodable"
   end.
 
+(* ---- c07vm: the abstract machine instantiated with the CONCRETE step of coq/c01vm ------------------ *)
+(*  (c07vm <ast> <input> (pcs (<pc> <bt>)...) (runs (<k> (<polls> <res>)...)...))
+      <res> = (v <value>) | e | ctx | done | panic ;  k = none for the uncancelled run
+    The program (fragment F) is compiled by c01vm.Compile, run by VMLink.vm_fetch (c01vm's step with the
+    natives instance c01vm.Natives.cnat) under Cancel.calls:
+      pcs  = pc and backtrack flag of every instruction fetch of the implementation's uncancelled run
+             (from the interpreter's own debug trace) = those of the model;
+      runs = for every cancellation poll k the (poll count, result) sequence of the implementation
+             = Cancel.calls vm_fetch (cancel_at k), up to the first error value (c01vm's convention). *)
+Definition vfetch (c : list instr) := VMLink.vm_fetch cnat c.
+
+Fixpoint fetch_pcs (c : list instr) (fuel : nat) (s : VM.state) : list (nat * bool) :=
+  match fuel with
+  | O => []
+  | S f =>
+      let here := match s with VM.Run pc bt _ _ => [(pc, bt)] | VM.Brk _ _ _ _ => [] end in
+      match vfetch c s with
+      | Continue s' => here ++ fetch_pcs c f s'
+      | Emit _ s' => here ++ fetch_pcs c f s'
+      | _ => here
+      end
+  end.
+
+Definition natS (n : nat) : sexp := Atom (print_N (N.of_nat n)).
+Definition enc_vres (r : result jv (option VM.verr)) : sexp :=
+  match r with
+  | RVal v => SList [A "v"; c01vm.Run.enc_val v]
+  | RErr _ => A "e" | RCtx => A "ctx" | RDone => A "done"
+  end.
+Definition is_rerr (r : result jv (option VM.verr)) : bool := match r with RErr _ => true | _ => false end.
+
+(* keep the history up to and including the first error value *)
+Fixpoint upto_err (h : list (result jv (option VM.verr) * cfg VM.state)) : list sexp :=
+  match h with
+  | [] => []
+  | (r, c) :: t => SList [natS (polls c); enc_vres r] :: (if is_rerr r then [] else upto_err t)
+  end.
+
+Definition judge_vm_run (c : list instr) (v : jv) (e : sexp) : option sexp :=
+  match e with
+  | SList (ka :: obs) =>
+      let done := match ka with Atom a => match parse_N a with Some k => Some (cancel_at (N.to_nat k), S (S (N.to_nat k))) | None => None end | _ => None end in
+      let '(oracle, fuel) := match done with Some x => x | None => (never, (1000 * 1000)%nat) end in
+      match calls (vfetch c) oracle fuel (List.length obs) (mkCfg 0 0 (Running (VM.init v))) with
+      | Some h => let x := upto_err h in
+                  if c01vm.Run.sexp_eqb (SList x) (SList obs) then None
+                  else Some (SList [A "bad"; SList [A "k"; ka]; SList (A "expected" :: x)])
+      | None => Some (SList [A "bad"; SList [A "k"; ka]; A "fuel"])
+      end
+  | _ => Some (A "undecodable-run")
+  end.
+
+Fixpoint judge_vm_runs (c : list instr) (v : jv) (runs : list sexp) : sexp :=
+  match runs with
+  | [] => A "ok"
+  | r :: rest => match judge_vm_run c v r with Some bad => bad | None => judge_vm_runs c v rest end
+  end.
+
+Definition judge_c07vm (ast inp : sexp) (pcs runs : list sexp) : sexp :=
+  match c01vm.Run.dec_q ast, c01vm.Run.dec_val inp with
+  | Some q, Some v =>
+      match compile q with
+      | Some c =>
+          let mine := map (fun pb : nat * bool => SList [natS (fst pb); (if snd pb then A "1" else A "0")]) (fetch_pcs c (1000 * 1000)%nat (VM.init v)) in
+          if negb (c01vm.Run.sexp_eqb (SList mine) (SList pcs)) then
+            SList [A "bad"; A "pc-sequence"; natS (List.length mine)]
+          else judge_vm_runs c v runs
+      | None => A "notinfragment"
+      end
+  | _, _ => A "undecodable"
+  end.
+
 Definition run_line (l : list N) : list N :=
   match parse l with
+  | Some (SList [k; ast; inp; SList (tp :: pcs); SList (tr :: runs)]) =>
+      if atom_is "c07vm" k && atom_is "pcs" tp && atom_is "runs" tr then print (judge_c07vm ast inp pcs runs)
+      else codes "undecodable"
   | Some (SList [k; e]) =>
       if atom_is "spec" k then print (run_sexp true e)
       else if atom_is "both" k then
